@@ -1485,7 +1485,20 @@ class TeX(object):
                 return dimen(sign * dimen(t))
             self.pushToken(t)
             break
-        num = dimen(sign * self.readDecimal() * self.readUnitOfMeasure(units=units))
+        num = sign * self.readDecimal()
+        unit = self.readUnitOfMeasure(units=units)
+        if abs(unit) >= 2e9:
+            # fil, fill and filll are encoded by an offset (see `dimen`) that
+            # must not be scaled: only the multiplier is
+            offset = abs(unit) - abs(unit.fil)
+            num *= unit.fil
+            if num < 0:
+                num -= offset
+            else:
+                num += offset
+        else:
+            num *= unit
+        num = dimen(num)
         ParameterCommand.enable()
         return num
 
